@@ -17,6 +17,7 @@ import EEM.Gen.SettingsTables
 import EEM.Model.Gate
 import EEM.Gen.Guards
 import EEM.Model.Dst
+import EEM.Model.Serial
 
 open EEM EEM.Proto EEM.Model
 
@@ -451,6 +452,35 @@ def opDst (args : List String) : String :=
     | none => "bad-op"
   | _ => "bad-op"
 
+open EEM.Model.Serial in
+partial def showJ : J Float → String
+  | .null => "null"
+  | .str s => "\"" ++ s ++ "\""
+  | .num x => "\"" ++ showFloat x ++ "\""
+  | .obj fs => "{" ++ ", ".intercalate (fs.map fun (k, v) => "\"" ++ k ++ "\": " ++ showJ v) ++ "}"
+
+/-- `doc <type> <intercept> <6 optional> <T_min T_max T_min_seg T_max_seg> <f_unc>`: the document after
+toDoc → JSON → fromDoc → toDoc (numbers as quoted bit patterns) -/
+def opDoc (args : List String) : String :=
+  match args with
+  | [mt, ic, a, b, c, d, e, f, tmin, tmax, tmins, tmaxs, fu] =>
+    let r : Option String := do
+      let mt ← parseModelType mt
+      let ic ← parseFloat ic
+      let a ← parseOptFloat a; let b ← parseOptFloat b; let c ← parseOptFloat c
+      let d ← parseOptFloat d; let e ← parseOptFloat e; let f ← parseOptFloat f
+      let s : Submodel Float := {
+        coeffs := { model_type := mt, intercept := ic, hdd_bp := a, hdd_beta := b, hdd_k := c,
+                    cdd_bp := d, cdd_beta := e, cdd_k := f },
+        T_min := ← parseFloat tmin, T_max := ← parseFloat tmax,
+        T_min_seg := ← parseFloat tmins, T_max_seg := ← parseFloat tmaxs, f_unc := ← parseFloat fu }
+      let s' ← Model.Serial.submodelFromDoc (Model.Serial.dumpsLoads (Model.Serial.submodelToDoc s))
+      some (showJ (Model.Serial.submodelToDoc s'))
+    match r with
+    | some s => "ok " ++ s
+    | none => "bad-op"
+  | _ => "bad-op"
+
 def step (line : String) : String :=
   match words line with
   | "submodel" :: args => opPredictSubmodel args
@@ -479,6 +509,7 @@ def step (line : String) : String :=
   | "lock" :: args => opLock args
   | "gate" :: args => opGate args
   | "dst" :: args => opDst args
+  | "doc" :: args => opDoc args
   | _ => "bad-op"
 
 partial def loop (h : IO.FS.Stream) (out : IO.FS.Stream) : IO Unit := do
